@@ -1083,3 +1083,75 @@ def system_is_built_with_the_named_grid_at_the_specified_origin(typ: int, grid: 
             assert [a.specifier for a, loc in s.placed] == ((["IC", "OC", "OC"], ["OC"])[grid] if load else [])
     bp0 = new(BpAssem, known=(), made=0, gridDesigns=ymap(Grids, []))
     assert refused(lambda: sb.construct({}, bp0, new(ReactorProbe, children=[]))), "no grids at all: refused"
+
+
+# ------------------------------------------------------------------------------------------------ components
+Material = repo("armi.materials.material:Material")
+basicShapes = repo("armi.reactor.components.basicShapes")
+DimensionLink = repo("armi.reactor.components.component:_DimensionLink")
+ComponentDimension = repo("armi.reactor.blueprints.componentBlueprint:ComponentDimension")
+
+
+class PMap:
+    """Abstract view of a ParameterCollection: a name -> value map (trusted model of `self.p`, as in C03_expansion.py)."""
+
+    def __getitem__(self, k):
+        return getattr(self, k)
+
+    def __setitem__(self, k, v):
+        setattr(self, k, v)
+
+    def get(self, k, d=None):
+        return getattr(self, k, d)
+
+    def __contains__(self, k):
+        return hasattr(self, k)
+
+
+class AnySolid(Material):
+    """a solid material with an arbitrary expansion correlation P(T)"""
+
+    def linearExpansionPercent(self, Tk=None, Tc=None):
+        return uf("P", Tc)
+
+
+def circle(name, T0, T1, od, id_, mult):
+    """a Circle component the way components.factory builds it from the blueprint's keyword arguments"""
+    if NATIVE:
+        return basicShapes.Circle(name, "HT9", T0, T1, od=od, id=id_, mult=mult)
+    assume(uf("P", T0) > -100.0 and uf("P", T1) > -100.0)
+    p = new(PMap, numberDensities={"FE": 0.02}, volume=None, detailedNDens=None, pinNDens=None, modArea=None, temperatureInC=T1, od=od, id=id_, mult=mult)
+    # DIMENSION_NAMES: assigned by the metaclass ComponentType from the __init__ signature (od, id, mult, modArea for a Circle)
+    return new(basicShapes.Circle, name=name, p=p, material=new(AnySolid), inputTemperatureInC=T0, parent=None, cached={},
+               DIMENSION_NAMES=("od", "id", "mult", "modArea"))
+
+
+@lemma(gen={"T0": (20.0, 400.0), "T1": (20.0, 700.0), "fuelOd": (0.1, 1.0), "gapW": (0.01, 0.1), "cladW": (0.01, 0.2), "case": (0, 3)})
+def link_strings_become_links_to_the_named_components(T0: float, T1: float, fuelOd: float, gapW: float, cladW: float, case: int):
+    """Component.resolveLinkedDims (+ COMPONENT_LINK_REGEX, _DimensionLink.resolveDimension, getDimension) on a pin of fuel / gap / clad
+    where the gap is written `id: fuel.od`, `od: clad.id`: afterwards the gap's dimensions ARE the named dimensions of the named
+    components (hot and cold), numeric dimensions are untouched; a link to a component the block does not have and a name with
+    periods are refused.  Material: arbitrary expansion law (AnySolid); parameters: PMap."""
+    assume(fuelOd > 0 and gapW > 0 and cladW > 0)
+    case = choose(case, 0, 3)
+    fuel = circle("fuel", T0, T1, fuelOd, 0.0, 1)
+    clad = circle("clad", T0, T1, fuelOd + gapW + cladW, fuelOd + gapW, 1)
+    idSpec = ("fuel.od", " fuel . od ", "pellet.od", "pel.let.od")[case]
+    gap = circle("gap", T0, T1, "clad.id", idSpec, 1)
+    comps = {"fuel": fuel, "gap": gap, "clad": clad}
+    try:
+        for c in (fuel, gap, clad):
+            c.resolveLinkedDims(comps)
+        ok = True
+    except (KeyError, ValueError):
+        ok = False
+    assert ok == (case <= 1), "unknown component / periods in the name refused"
+    if ok:
+        assert isinstance(gap.p.id, DimensionLink) and isinstance(gap.p.od, DimensionLink)
+        assert eq(gap.getDimension("id", cold=True), fuelOd) and eq(gap.getDimension("od", cold=True), fuelOd + gapW), "cold dimensions as linked"
+        try:
+            assert eq(gap.getDimension("id"), fuel.getDimension("od")) and eq(gap.getDimension("od"), clad.getDimension("id")), "hot ones follow"
+        except RuntimeError:
+            pass  # an expansion law with P(T1) = P(T0) at T1 != T0 is refused loudly by getThermalExpansionFactor: outside the statement (as in C03)
+        assert eq(fuel.getDimension("od", cold=True), fuelOd) and eq(clad.getDimension("id", cold=True), fuelOd + gapW), "numeric dimensions untouched"
+        assert gap.getDimension("mult") == 1
